@@ -58,6 +58,13 @@ pub struct Matrix {
     /// the slow command ignores (1) or traps (2) SIGTERM before it sleeps
     #[serde(default)]
     pub trap_term: u8,
+    /// an unreachable `skip_document_code` (-1, -100, -255, 256: "skipping switched off"), from
+    /// the front-matter defaults or inline on every test case; Markdown only. A timeout must be
+    /// reported as a timeout all the same
+    #[serde(default)]
+    pub skip_code: Option<i32>,
+    #[serde(default)]
+    pub skip_inline: bool,
 }
 
 #[derive(Clone, Debug, Serialize, Deserialize)]
@@ -127,6 +134,9 @@ impl Matrix {
         if self.n == 0 || self.pos >= self.n {
             return false;
         }
+        if self.skip_code.is_some() && self.format == Format::Cram {
+            return false;
+        }
         if self.wait {
             return self.format == Format::Markdown
                 && self.per_test == PerTest::Absent
@@ -167,7 +177,16 @@ impl Matrix {
                 t
             })
             .collect();
+        let mut tests = tests;
+        if self.skip_inline {
+            for t in tests.iter_mut() {
+                t.skip_code = self.skip_code;
+            }
+        }
         let mut doc = DocSpec::new(&format!("m.{ext}"), self.format, tests);
+        if !self.skip_inline {
+            doc.skip_code = self.skip_code;
+        }
         let mut cli = None;
         match self.doc {
             DocLimit::Default => {}
@@ -272,6 +291,8 @@ fn gen_matrix(k: u64, rng: &mut Rng) -> Matrix {
             slow: false,
             wait: true,
             trap_term: 0,
+            skip_code: if (k / 12) % 2 == 1 { Some(-1) } else { None },
+            skip_inline: false,
         };
     }
     if k % 6 == 5 {
@@ -286,6 +307,8 @@ fn gen_matrix(k: u64, rng: &mut Rng) -> Matrix {
             slow: false,
             wait: false,
             trap_term: 0,
+            skip_code: None,
+            skip_inline: false,
         }
     } else {
         let j = k - k / 6;
@@ -294,6 +317,17 @@ fn gen_matrix(k: u64, rng: &mut Rng) -> Matrix {
         // plain, TERM-ignoring and TERM-trapping commands rotate over the rows, shifted by one on
         // every pass so that each row meets each kind
         let trap_term = ((j + j / SLOW_ROWS.len() as u64) % 3) as u8;
+        // two rows out of five run with an unreachable skip code
+        let (skip_code, skip_inline) = if i == 9 {
+            (None, false)
+        } else {
+            match j % 5 {
+                1 => (Some(-1), false),
+                2 => (Some(-1), true),
+                4 => (Some([-100, -255, 256][((j / 5) % 3) as usize]), (j / 5) % 2 == 1),
+                _ => (None, false),
+            }
+        };
         Matrix {
             format: if i == 9 { Format::Cram } else { Format::Markdown },
             per_test: p,
@@ -303,6 +337,8 @@ fn gen_matrix(k: u64, rng: &mut Rng) -> Matrix {
             slow: true,
             wait: false,
             trap_term,
+            skip_code,
+            skip_inline,
         }
     }
 }
@@ -633,6 +669,9 @@ impl C14 {
             2 => "/sigterm-trapped",
             _ => "",
         };
+        if case.skip_code.is_some() {
+            buckets.push("B:unreachable-skip-code".into());
+        }
         if case.slow {
             buckets.push(format!("B:slow-command{}", if term.is_empty() { "/plain" } else { term }));
         }
@@ -704,7 +743,7 @@ impl C14 {
         // the slow command never got as far as its first marker (limit struck earlier, loaded
         // machine): nothing was observed about aborting it, the row does not count as observed
         let started = !case.slow || obs.markers.contains(&format!("m{}", case.pos));
-        let shape = hash_str(&format!("{:?}{:?}{:?}{}{}{}{}{}", case.format, case.per_test, case.doc, case.slow, case.n, case.pos, case.wait, case.trap_term));
+        let shape = hash_str(&format!("{:?}{:?}{:?}{}{}{}{}{}{:?}", case.format, case.per_test, case.doc, case.slow, case.n, case.pos, case.wait, case.trap_term, case.skip_code));
         let mut c = match verdict {
             Some((sig, detail)) => Checked::violated(sig, detail),
             None => Checked::held(),
@@ -746,6 +785,7 @@ impl Monitor for C14 {
             ("kind:timeout".into(), tier.pick(8, 30)),
             ("B:wait:document-limit-only:markdown".into(), tier.pick(1, 3)),
             ("B:slow-command/sigterm-ignored".into(), tier.pick(3, 10)),
+            ("B:unreachable-skip-code".into(), tier.pick(4, 15)),
             ("B:slow-command/sigterm-trapped".into(), tier.pick(3, 10)),
         ];
         p.assumptions = vec![
@@ -832,7 +872,7 @@ impl Monitor for C14 {
             Case::Matrix(m) => {
                 let mut v = sample_run(&m.to_run());
                 v["monitor"] = json!("B");
-                v["row"] = json!(format!("{:?} per-test={:?} document={:?} n={} pos={} slow={} wait={} trap_term={}", m.format, m.per_test, m.doc, m.n, m.pos, m.slow, m.wait, m.trap_term));
+                v["row"] = json!(format!("{:?} per-test={:?} document={:?} n={} pos={} slow={} wait={} trap_term={} skip_code={:?} inline={}", m.format, m.per_test, m.doc, m.n, m.pos, m.slow, m.wait, m.trap_term, m.skip_code, m.skip_inline));
                 v
             }
             Case::Decision(d) => {
